@@ -161,7 +161,12 @@ func (d *dynUpdater) backendUpdated() bool {
 	// true if deep equals or successfully updated
 	// false if cannot be dynamically updated or update failed
 	for _, pair := range backends {
-		if pair.cur != nil && !d.checkBackendPair(pair) {
+		if pair.cur == nil {
+			// cannot be dynamically removed and should
+			// not be left in the configuration files
+			d.logger.InfoV(2, "removed backend '%s'", pair.old.ID)
+			updated = false
+		} else if !d.checkBackendPair(pair) {
 			updated = false
 		}
 	}
